@@ -256,7 +256,12 @@ type program struct {
 	ctxs   []ctx
 	size   *sizeRef              // family "size": how to regenerate the program
 	forCap int                   // > 0: how far the model follows a @for in this program
-	build  func() (*Node, []ctx) // family "size": node and match are built when a shard owns the program
+	build  func() (*Node, []ctx) // families "size", "arglist", "delim": node and match are built when a shard owns the program
+	// families "arglist" and "delim" (arglist.go): the helper call under the
+	// consumer, and the twin - the same program with every constant argument
+	// replaced by a group; twinCtxs[i] is the twin's match for ctxs[i]
+	inner, twin, twinInner *Node
+	twinCtxs               []ctx
 }
 
 // materialize builds a lazily described program; false: it does not exist.
@@ -449,6 +454,13 @@ func enumerate(quick bool, f func(p *program) bool) {
 		return
 	}
 	if !enumerateSize(quick, f) {
+		return
+	}
+	// families "arglist" and "delim": constant versus dynamic arguments, see arglist.go
+	if !enumerateArglist(quick, f) {
+		return
+	}
+	if !enumerateDelim(quick, f) {
 		return
 	}
 
